@@ -117,7 +117,7 @@ func (P) Monitor(c *hx.CaseRun) []hx.Failure {
 						fs = append(fs, hx.Failure{Monitor: "keyimage_once", Class: "output-spent-twice", Site: "app/state_processor.go:checkValid",
 							Msg: "confidential output " + k + " was spent by two committed transactions"})
 					}
-				case "xfer", "xfertok", "ain", "call":
+				case "xfer", "xfertok", "ain", "call", "create", "mcall", "calltok", "xferx":
 					if ti.nonce != nextNonce[ti.from] {
 						fs = append(fs, hx.Failure{Monitor: "exact_nonce", Class: "nonce-not-exact", Site: "app/state_transition.go:checkNonce",
 							Msg: fmt.Sprintf("sender %d: transaction with nonce %d executed when the next nonce was %d", ti.from, ti.nonce, nextNonce[ti.from])})
@@ -134,6 +134,9 @@ func (P) Generate(g *hx.Gen) {
 	g.Case("corpus: forced block with value-underfunded transfers (failed receipts consume the nonce)", c06.WithReceipts(c06.Underfunded), true)
 	for k, nu := 0, g.Pick(60, 500); k < nu; k++ {
 		g.Case("underfunded forced blocks", c06.WithReceipts(c06.UnderfundedCase(g)), true)
+	}
+	for k, nc := 0, g.Pick(40, 300); k < nc; k++ {
+		g.Case("contract transactions re-offered", c06.WithReceipts(ContractReuse(g)), true)
 	}
 	n := g.Pick(200, 1000)
 	for k := 0; k < n; k++ {
@@ -291,4 +294,120 @@ func (P) Generate(g *hx.Gen) {
 		g.Stats["reinclusion-attempts"] += attempts
 		g.Case(fmt.Sprintf("reuse trie=%d", trie), c06.WithReceipts(ops), attempts > 0)
 	}
+}
+
+// ContractReuse: every kind of contract transaction (creation succeeding / failing, calls that move value, keep it, revert,
+// burn all gas, destroy the contract; token value) is committed — through the mempool or in a forced block — and then offered
+// again: through the mempool, forced alone, forced twice in one block, after a restart; and with a stale / future nonce.
+// A failed creation or call consumes its nonce like a successful one.
+func ContractReuse(g *hx.Gen) []string {
+	r := g.Rng
+	ops := []string{hx.CaseOp("contracts"), fmt.Sprintf("chain trie=%d accts=3 wallets=2 seed=%d code=2", r.Intn(2), 1+r.Intn(1000))}
+	add := func(f string, a ...interface{}) { ops = append(ops, fmt.Sprintf(f, a...)) }
+	nonce := []int{0, 0, 0}
+	id := 0
+	ncreate := 0
+	ckey := map[string]int{}
+	var committed []int
+	instance := -1
+	rounds := 3 + r.Intn(g.Pick(3, 5))
+	for k := 0; k < rounds; k++ {
+		from := r.Intn(3)
+		n := nonce[from]
+		switch d := r.Intn(8); d { // now and then a stale or future nonce: refused by the mempool, invalid in a forced block
+		case 0:
+			if n > 0 {
+				n--
+			}
+		case 1:
+			n += 1 + r.Intn(3)
+		}
+		v := []int{0, 2, 500, 77770}[r.Intn(4)]
+		switch r.Intn(6) {
+		case 0:
+			kind := []string{"ok", "empty", "revert", "invalid", "big"}[r.Intn(5)]
+			add("create from=%d kind=%s nonce=%d value=%d gas=3000000", from, kind, n, v)
+			ck := fmt.Sprintf("%d/%d/%s", from, n, kind) // the creation address is a function of (sender, nonce, init code)
+			j, seen := ckey[ck]
+			if !seen {
+				j = ncreate
+				ckey[ck] = j
+				ncreate++
+			}
+			if kind == "ok" && n == nonce[from] && instance < 0 {
+				instance = j
+			}
+			g.Count("reuse:create:" + kind)
+		case 1:
+			m := []int{0, 1, 3, 5, 6, 7, 8}[r.Intn(7)]
+			add("mcall from=%d nonce=%d m=%d to=a%d value=%d gas=3000000", from, n, m, r.Intn(3), v-v%2)
+			g.Count(fmt.Sprintf("reuse:mover:m=%d", m))
+		case 2:
+			add("mcall from=%d nonce=%d m=%d to=b%d value=%d tok=1", from, n, []int{0, 4}[r.Intn(2)], r.Intn(2), 1+r.Intn(100))
+			g.Count("reuse:token-value")
+		case 3:
+			add("calltok from=%d nonce=%d c=%d value=%d", from, n, []int{3, 255}[r.Intn(2)], r.Intn(100))
+			g.Count("reuse:token-value")
+		case 4:
+			add("xferx from=%d nonce=%d to=b%d amount=%d", from, n, r.Intn(2), 1+v)
+			g.Count("reuse:transfer-to-new-address")
+		default:
+			add("xfer from=%d to=%d amount=%d nonce=%d", from, r.Intn(3), 1+v, n)
+		}
+		a := id
+		id++
+		if n == nonce[from] {
+			nonce[from]++
+			committed = append(committed, a)
+			if r.Intn(2) == 0 {
+				add("block")
+			} else {
+				add("forceblock ids=%d", a)
+				add("block") // whatever the mempool still holds was rechecked: nothing stale may come out
+			}
+		} else {
+			add("forceblock ids=%d", a) // wrong nonce: invalid block
+			add("block")
+		}
+		// re-inclusion attempts of something committed
+		if len(committed) == 0 {
+			continue
+		}
+		t := committed[r.Intn(len(committed))]
+		switch r.Intn(5) {
+		case 0:
+			add("replay id=%d", t)
+			add("block")
+		case 1:
+			add("forceblock ids=%d", t)
+		case 2:
+			add("forceblock ids=%d,%d", t, t)
+		case 3:
+			add("restart")
+			add("replay id=%d", t)
+			add("block")
+			add("forceblock ids=%d", t)
+		default:
+			if len(committed) > 1 {
+				add("forceblock ids=%d,%d", committed[len(committed)-1], committed[0])
+			}
+		}
+		g.Stats["reinclusion-attempts"]++
+		add("nonces")
+	}
+	// the destroyed contract: a SELFDESTRUCT transaction, then the same transaction again (the contract is gone: the replay would be a plain transfer)
+	if instance >= 0 {
+		from := r.Intn(3)
+		add("mcall from=%d nonce=%d m=2 to=a%d at=%d value=0 gas=3000000", from, nonce[from], r.Intn(3), instance)
+		a := id
+		id++
+		nonce[from]++
+		add("block")
+		add("replay id=%d", a)
+		add("forceblock ids=%d", a)
+		add("nonces")
+		g.Count("reuse:selfdestruct")
+	}
+	add("balx")
+	return ops
 }
